@@ -1,10 +1,13 @@
 import DG.TextPos
+import Proofs.Deps
 /-!
 # C08 — reported ranges cover precisely the specifier; position lookup
 
-Model: `DG/TextPos.lean`.  The parser itself (swc) and the dependency collector are not modelled:
-"every dependency once and nothing else" is decided on the implementation by a generator that knows
-what it wrote.  What is proved here is the position arithmetic every reported range goes through.
+Models: `DG/TextPos.lean` (position arithmetic every reported range goes through) and
+`DG/Deps.lean` (what a module's analysis becomes in the graph: `parse_js_module_from_module_info`
+and `fill_module_dependencies`).  The parser itself (swc) and its dependency collector are not
+modelled: that the *analysis* lists every import of the source is decided on the implementation by a
+generator that knows what it wrote.  From the analysis on, "each dependency once" is a theorem.
 -/
 namespace DG.C08
 open DG.MI DG.TP
@@ -200,5 +203,46 @@ example :
     slice "é\r\n// @ts-types=\"./x.d.ts\"\nimport".toList
       (commentSpan "é\r\n// @ts-types=\"./x.d.ts\"\nimport".toList 3 12 20 false) = "\"./x.d.ts\"".toList := by
   decide
+
+/-! ## from the analysis to the recorded dependencies -/
+
+/-- **each dependency once**: whatever the analysis lists — imports, exports, dynamic imports,
+triple-slash references, JSDoc imports, the JSX import source, in any number and order — the
+module records exactly one entry per specifier text -/
+theorem one_entry_per_specifier (e : DG.Deps.Env) (mi : ModuleInfo) :
+    ((DG.Deps.analyse e mi).deps.map (·.text)).Nodup :=
+  DG.Deps.analyse_keys_nodup e mi
+
+/-- **static wins** (C01): an entry is flagged dynamic only if every import of the module as code
+behind it is dynamic — one static import, `@jsxImportSource` included, makes it static -/
+theorem static_wins (e : DG.Deps.Env) (mi : ModuleInfo) (d : DG.Deps.Dep) (hd : d ∈ (DG.Deps.analyse e mi).deps)
+    (hdyn : d.dyn = true) : ∀ i ∈ d.imports, i.kind.isCode = true → i.dyn = true :=
+  DG.Deps.analyse_static_wins e mi d hd hdyn
+
+/-- **a code-only analysis has no type side**: no type resolution, no `@deno-types`, no type-only
+import behind any entry, and no types dependency of the module -/
+theorem code_only_has_no_types (e : DG.Deps.Env) (he : e.includeTypes = false) (mi : ModuleInfo) :
+    (∀ d ∈ (DG.Deps.analyse e mi).deps, d.type = .none ∧ d.denoTypes = none ∧ ∀ i ∈ d.imports, i.kind.isCode = true) ∧
+    (DG.Deps.analyse e mi).typesDep = none :=
+  DG.Deps.analyse_code_only e he mi
+
+/-- non-vacuity: `import "./a.ts"; await import("./a.ts"); import type {T} from "./b.ts"` -/
+def demoInfo : ModuleInfo :=
+  { script := false,
+    deps := [.static { kind := .import, typesSpecifier := none, specifier := "./a.ts",
+                       specifierRange := ⟨⟨0, 7⟩, ⟨0, 15⟩⟩, sideEffect := true, attrs := .none },
+             .dynamic { kind := .import, typesSpecifier := none, argument := .str "./a.ts",
+                        argumentRange := ⟨⟨1, 13⟩, ⟨1, 21⟩⟩, attrs := .none },
+             .static { kind := .importType, typesSpecifier := none, specifier := "./b.ts",
+                       specifierRange := ⟨⟨2, 21⟩, ⟨2, 29⟩⟩, sideEffect := false, attrs := .none }],
+    tsRefs := [], selfTypes := none, jsxSrc := none, jsxSrcTypes := none, jsdoc := [], sourceMap := none }
+
+def demoEnv : DG.Deps.Env :=
+  { includeTypes := true, isDeclaration := false, isTyped := true, isJsx := false, header := none,
+    resC := fun t => if t = "./a.ts" then .ok 1 else if t = "./b.ts" then .ok 2 else .err,
+    resT := fun t => if t = "./a.ts" then .ok 1 else if t = "./b.ts" then .ok 2 else .err }
+
+example : (DG.Deps.analyse demoEnv demoInfo).deps.map (fun d => (d.text, d.dyn, d.imports.length)) =
+    [("./a.ts", false, 2), ("./b.ts", false, 1)] := by decide
 
 end DG.C08
